@@ -6,10 +6,10 @@ Local Open Scope N_scope.
 
 Ltac unfold_api :=
   unfold respond, handle_export, handle_post_halt, handle_delete_halt, handle_handoff, handle_import, handle_promote,
-    handle_stream, handle_tx, method_not_allowed, invalid, malformed, role_disallowed, missing_entity, import_leftover,
+    handle_stream, handle_tx, method_not_allowed, invalid, malformed, role_disallowed, missing_entity, import_leftover, tx_poisoned,
     allowed_method, bad_name, bad_id, is_primary, is_candidate, id_unparsable, holds_lock, name_is_known, changes in *.
 Ltac split_req q :=
-  destruct q as [ro pa me nm id nd sf h2 bd ha]; cbn [q_role q_path q_meth q_name q_id q_node q_self q_h2 q_body q_halted] in *.
+  destruct q as [ro pa me nm id nd sf h2 bd ha po]; cbn [q_role q_path q_meth q_name q_id q_node q_self q_h2 q_body q_halted q_poison] in *.
 Ltac crunch :=
   repeat (cbn [andb orb negb fst snd] in *;
           match goal with
@@ -25,34 +25,46 @@ Ltac crunch :=
 (* every request is answered with one of eight statuses *)
 Lemma respond_status q : In (fst (respond q)) [200; 400; 404; 405; 409; 426; 500; 503].
 Proof.
-  split_req q. unfold_api. cbn [q_role q_path q_meth q_name q_id q_node q_self q_h2 q_body q_halted].
+  split_req q. unfold_api. cbn [q_role q_path q_meth q_name q_id q_node q_self q_h2 q_body q_halted q_poison].
   destruct pa, me; crunch; cbn; repeat first [left; reflexivity | right].
 Qed.
 
 (* invalid requests change nothing - with the one exception that the code really has *)
-Lemma invalid_no_effect q : invalid q = true -> import_leftover q = false -> snd (respond q) = ENone.
+Lemma invalid_no_effect q : invalid q = true -> import_leftover q = false -> tx_poisoned q = false -> snd (respond q) = ENone.
 Proof.
-  split_req q. unfold_api. cbn [q_role q_path q_meth q_name q_id q_node q_self q_h2 q_body q_halted].
+  split_req q. unfold_api. cbn [q_role q_path q_meth q_name q_id q_node q_self q_h2 q_body q_halted q_poison].
   destruct pa, me; crunch; intros; try reflexivity; try discriminate.
 Qed.
 
 (* the exception, exactly: it is an invalid request (unusable body), it is answered 500, and it leaves a database behind *)
 Lemma import_leftover_spec q : import_leftover q = true -> invalid q = true /\ respond q = (500, ECreateDB).
 Proof.
-  split_req q. unfold_api. cbn [q_role q_path q_meth q_name q_id q_node q_self q_h2 q_body q_halted].
+  split_req q. unfold_api. cbn [q_role q_path q_meth q_name q_id q_node q_self q_h2 q_body q_halted q_poison].
   destruct pa, me, ro, nm, bd; cbn; intros H; try discriminate H; split; reflexivity.
+Qed.
+
+(* the second exception, exactly *)
+Lemma tx_poisoned_spec q : tx_poisoned q = true -> invalid q = true /\ respond q = (500, EStop).
+Proof.
+  split_req q. unfold_api. cbn [q_role q_path q_meth q_name q_id q_node q_self q_h2 q_body q_halted q_poison].
+  destruct pa, me; try (intros H; discriminate H); crunch; intros H; try discriminate H; split; reflexivity.
+Qed.
+Lemma stop_only_when_poisoned q : snd (respond q) = EStop -> tx_poisoned q = true.
+Proof.
+  split_req q. unfold_api. cbn [q_role q_path q_meth q_name q_id q_node q_self q_h2 q_body q_halted q_poison].
+  destruct pa, me; crunch; intros; try discriminate; reflexivity.
 Qed.
 
 Lemma invalid_effect_refuted : exists q, invalid q = true /\ snd (respond q) <> ENone.
 Proof.
-  exists (mk_req RPrimary PImport MPost NmUnknown IdBad NdBad false false false false). split; [reflexivity|discriminate].
+  exists (mk_req RPrimary PImport MPost NmUnknown IdBad NdBad false false false false false). split; [reflexivity|discriminate].
 Qed.
 
 (* invalid requests are refused, except a release of a lock that is not held (a no-op answered 200) *)
 Lemma invalid_refused q : invalid q = true ->
   400 <= fst (respond q) \/ (q_path q = PHalt /\ q_meth q = MDelete /\ respond q = (200, ENone)).
 Proof.
-  split_req q. unfold_api. cbn [q_role q_path q_meth q_name q_id q_node q_self q_h2 q_body q_halted].
+  split_req q. unfold_api. cbn [q_role q_path q_meth q_name q_id q_node q_self q_h2 q_body q_halted q_poison].
   destruct pa, me; crunch; intros; try discriminate; try (left; cbn; lia); try (right; repeat split; reflexivity).
 Qed.
 
@@ -61,20 +73,20 @@ Lemma apply_needs_holder q : snd (respond q) = EApplyTx ->
   q_path q = PTx /\ q_meth q = MPost /\ q_role q = RPrimary /\ q_name q = NmKnown /\ q_halted q = true /\ q_id q = IdHeld /\
   q_self q = false /\ q_body q = true.
 Proof.
-  split_req q. unfold_api. cbn [q_role q_path q_meth q_name q_id q_node q_self q_h2 q_body q_halted].
+  split_req q. unfold_api. cbn [q_role q_path q_meth q_name q_id q_node q_self q_h2 q_body q_halted q_poison].
   destruct pa, me; crunch; intros; try discriminate; repeat split; reflexivity.
 Qed.
 Lemma grant_needs_primary_and_free_lock q : snd (respond q) = EHaltAcquire ->
   q_path q = PHalt /\ q_meth q = MPost /\ q_role q = RPrimary /\ q_self q = false /\ (q_id q = IdOther \/ q_id q = IdHeld) /\
   (q_name q = NmUnknown \/ (q_name q = NmKnown /\ q_halted q = false)).
 Proof.
-  split_req q. unfold_api. cbn [q_role q_path q_meth q_name q_id q_node q_self q_h2 q_body q_halted].
+  split_req q. unfold_api. cbn [q_role q_path q_meth q_name q_id q_node q_self q_h2 q_body q_halted q_poison].
   destruct pa, me; crunch; intros; try discriminate; repeat split; try reflexivity; auto.
 Qed.
 Lemma release_needs_lock_id q : snd (respond q) = EHaltRelease ->
   q_path q = PHalt /\ q_meth q = MDelete /\ q_name q = NmKnown /\ q_halted q = true /\ q_id q = IdHeld.
 Proof.
-  split_req q. unfold_api. cbn [q_role q_path q_meth q_name q_id q_node q_self q_h2 q_body q_halted].
+  split_req q. unfold_api. cbn [q_role q_path q_meth q_name q_id q_node q_self q_h2 q_body q_halted q_poison].
   destruct pa, me; crunch; intros; try discriminate; repeat split; reflexivity.
 Qed.
 (* a second grant with the same id returns the same lock and changes nothing *)
@@ -87,6 +99,6 @@ Qed.
 Lemma write_effects_only_on_primary q :
   changes (snd (respond q)) = true -> snd (respond q) <> EHaltRelease -> snd (respond q) <> EPromote -> q_role q = RPrimary.
 Proof.
-  split_req q. unfold_api. cbn [q_role q_path q_meth q_name q_id q_node q_self q_h2 q_body q_halted].
+  split_req q. unfold_api. cbn [q_role q_path q_meth q_name q_id q_node q_self q_h2 q_body q_halted q_poison].
   destruct pa, me; crunch; intros; try discriminate; try reflexivity; try congruence.
 Qed.
